@@ -1,6 +1,14 @@
 """C06 — combining simulation results is independent of grouping (DESIGN.md §5 C06).
 
-Tie to source: hand models `Model/C06.lean` (Result.update / merge / observers)
+Tie to source, two independent ways:
+(a) regeneration — `harness/gen/c06.py` re-emits `Generated/C06Result.lean` from
+the current AST of results.py (Result.update with its per-type functions and
+dispatch, _assert_can_merge + merge, get_result / get_result_mean /
+get_result_var), `harness/gen/c06sim.py` re-emits `Generated/C06Sim.lean`
+(SimulationResults.add_result / append_result / add_new_result /
+merge_all_results) and the bridge theorems generated_*_match(es)_model prove the
+re-emitted functions equal to the hand models `Model/C06.lean` / `Model/C06Heap.lean`;
+(b) hand models `Model/C06.lean` (Result.update / merge / observers)
 and `Model/C06Heap.lean` (SimulationResults on an explicit heap of shared
 objects, parameter grids, combine_simulation_results), tied by an **exact**
 differential run: seeded scripts are executed on the real classes and on the
@@ -26,7 +34,8 @@ MODULE = 'PyPhysim.Properties.C06'
 DRIVER = 'drv_c06'
 
 CLAIM = {
-    'technique': 'Lean 4 proof (monoid homomorphism, merge-tree induction, heap frame + separation invariant)',
+    'technique': 'Lean 4 proof (monoid homomorphism, merge-tree induction, heap frame + separation invariant); '
+                 'Result arithmetic regenerated from the source + bridge theorems',
     'text': 'Kernel-checked theorems about an executable model of Result.update/merge/observers, '
             'SimulationResults.merge_all_results/append_all_results and combine_simulation_results (source after '
             'the fix: commits of findings/C06.json): for EVERY observation sequence, EVERY split into contiguous chunks and EVERY '
@@ -38,10 +47,44 @@ CLAIM = {
             'objects a frame theorem + separation invariant show that no object of a merged-in operand is written, '
             'for every later history of merges/updates (negative witness for the pre-fix aliasing); '
             'combine_simulation_results: union grid, row-major index, per-combination cell = accumulation of both '
-            'operands\' observations, operands untouched.  The hand model is tied to the source by an exact '
-            'differential run of seeded scripts comparing every attribute of every reachable object and the '
-            'sharing structure.',
-    'note': 'Hand model (no regeneration): a behaviour the generators do not reach is not tied; the thorough '
+            'operands\' observations, operands untouched.  The arithmetic core of Result (update with its four '
+            'per-type functions, the type dispatch, num_updates += 1 last / nothing stored before a raise; '
+            '_assert_can_merge + merge: all assertions first, list extension under accumulate_values_bool, MISC '
+            'replaces / other types add; get_result, get_result_mean, get_result_var) is RE-EMITTED from the current '
+            'AST of results.py on every run (Generated/C06Result.lean: which attribute ends up with which value, '
+            'which exception is raised on which condition in which state) and proved equal to the hand model for '
+            'every record and observation (generated_update_matches_model, generated_update_is_model, '
+            'generated_getters_match_model; generated_merge_matches_model for every pair of records in which _value '
+            'is either a number or a CHOICE array, an invariant of the constructor / update / merge: '
+            'one_value_invariant), so the theorems above are theorems about the regenerated functions.  The control '
+            'structure of SimulationResults.add_result / append_result / add_new_result / merge_all_results (empty self '
+            'adopts deep copies name by name; otherwise every _assert_can_merge incl. num_skipped_reps before '
+            'anything changes, then the merges of the last results, then the num_skipped_reps tail) is re-emitted as '
+            'well (Generated/C06Sim.lean) and proved equal to the heap model (generated_add_append_match_model for '
+            'every machine; generated_merge_all_matches_model for every machine whose operand dictionary has no key '
+            'twice).  In addition the '
+            'whole hand model is tied to the source by an exact differential run of seeded scripts comparing every '
+            'attribute of every reachable object and the sharing structure.',
+    'note': 'Regenerated (translator harness/gen/c06.py, symbolic execution of a small statement language once per '
+            'result type; private helpers, nested functions, properties inlined; anything outside the fragment = tie '
+            'broken): Result.update, _assert_can_merge, merge, get_result, get_result_mean, get_result_var. Trusted '
+            'there: the translator and its stated conventions (numbers are exact rationals; _value is a number or, '
+            'for CHOICE, an int array; a[int(x)] += 1 = numpy index normalisation + increment, IndexError outside; '
+            'int array / 0 reported as ZeroDivisionError unless the array is empty; array += array only under a '
+            'checked equal length; other is not self; the x = x.item() conversion of numpy scalars is the identity on '
+            'exact values, its presence is checked by generated_type_codes_and_conversion). Container level '
+            '(harness/gen/c06sim.py, compositional rules into the primitives of Model/C06HeapOps.lean: names / size / '
+            'getList / last / first / deref / setEntryNewList / listAppend, loops over a snapshot list of names as '
+            'recursive functions): add_result, append_result, add_new_result, merge_all_results; trusted there: the '
+            'rules, the primitives, and that R._assert_can_merge / R.merge / Result() / Result.create / copy.deepcopy '
+            'of a list of results are the hand model\'s mergeGuard / mergeR / mkRes / createRes / copyElems (the first '
+            'two tied by the Result-level regeneration, the others by correspondence). Still hand-modelled and tied '
+            'by correspondence only: Result.__init__ / create / __eq__, get_confidence_interval (scipy), '
+            'append_all_results (its loops run over live list objects that the body may extend: the hand model uses a '
+            'snapshot + self-feeding test; a sound translation needs a fuelled live-iteration semantics and a frame '
+            'lemma that a list that is not self-feeding is not written), the heap / aliasing model itself (what an '
+            'address is, which objects are shared), combine_simulation_results and the parameter objects: there a '
+            'behaviour the generators do not reach is not tied; the thorough '
             'tier additionally enumerates all merge trees with <= 4 leaves over sequences of length <= 4. '
             'Robustness classes: R1 element types (observations/totals/CHOICE indexes as Python numbers, numpy '
             'int8..int64/uint8/uint16/float16/float32/float64 scalars, 0-d arrays; parameter value containers of '
@@ -2775,7 +2818,7 @@ def check(ctx):
                 'small ints, dyadics, mixed int/float equal values (2 vs 2.0), 1e-9..1e-12-scale floats, 1e9-scale '
                 'floats with relative gaps 1e-6..1e-12, neighbouring doubles; rare duplicates and ill-formed operands); merge trees over random contiguous splits (length 0-40 quick / 0-150 '
                 'thorough); non-trivial = distinct script with >= 4 ops / distinct case with >= 2 observations')
-    core.prove(ctx, MODULE, generated=[], drivers=[DRIVER], scratch=ctx.scratch)
+    core.prove(ctx, MODULE, generated=['C06Result', 'C06Sim'], drivers=[DRIVER], scratch=ctx.scratch)
     ctx.required_branches = ['corpus', 'op:ma', 'op:aa', 'op:cb', 'op:m', 'op:u', 'tree:sum', 'tree:ratio', 'tree:misc',
                              'tree:choice', 'err:AssertionError', 'err:ZeroDivisionError', 'err:ValueError',
                              'err:IndexError', 'err:KeyError', 'err:RuntimeError',
@@ -2816,7 +2859,10 @@ def check(ctx):
     oracles(ctx, quick)
     if not quick:
         exhaustive_small(ctx)
-    ctx.notes.append('hand model Model/C06.lean + Model/C06Heap.lean tied by exact differential scripts; '
+    ctx.notes.append('Result.update / merge / get_result / mean / var (Generated/C06Result.lean) and '
+                     'SimulationResults.add_result / append_result / add_new_result / merge_all_results '
+                     '(Generated/C06Sim.lean) regenerated from results.py and proved equal to the hand model; hand model Model/C06.lean + '
+                     'Model/C06Heap.lean tied by exact differential scripts; '
                      'floating point outside the theorems (exact inputs; one tolerance stream rtol 1e-9)')
 
 
